@@ -133,6 +133,9 @@ class Definitions:
     messages: list[Message] = attrs.field(kw_only=True, factory=list)
 
     def get_codegen_context(self):
+        # the group contexts and the unique-name counters belong to one generation
+        Group.Contexts = []
+        Group.UniqueNameCounter.clear()
         message_context = [
             message.get_codegen_context(self) | {
                 'body_name': f'{message.name}Body',
